@@ -308,6 +308,17 @@ func runC06Driver(c *Ctx) {
 					if ptx, perr := db.BeginTx(context.Background(), nil); perr == nil {
 						ptx.Rollback()
 					}
+					// ... and with a seata context that carries a fence phase but no branch (a TCC method called
+					// outside a global transaction): refused, not a crash
+					if pn := safeCall(func() {
+						bare := tm.InitSeataContext(context.Background())
+						tm.SetFencePhase(bare, enum.FencePhasePrepare)
+						if ptx, perr := db.BeginTx(bare, nil); perr == nil {
+							ptx.Rollback()
+						}
+					}); pn != "" && leak == "" {
+						leak = "BeginTx with a seata context that has no branch: " + pn
+					}
 					if open := e.OpenTxns(); len(open) > 0 && leak == "" {
 						leak = fmt.Sprintf("after a BeginTx without a seata context: transactions %v still open on the pooled connection", open)
 					}
